@@ -420,10 +420,17 @@ impl System for Sys {
                         (Some(r), Some(c)) => (0..3u8).filter(|d| self.recorded.contains(&(*d, r, c))).collect(),
                         _ => vec![],
                     };
-                    if backers.len() < thr {
-                        let how = if matches!(action, Abstract::Merge { .. }) { "after-merge" } else { "after-non-merge" };
+                    // Judged when the patch enters this Merged value (afterwards neither the set of
+                    // recorded merges can shrink nor the threshold in force change).
+                    if pre != post && backers.len() < thr {
+                        let how = match action {
+                            Abstract::Merge { .. } => "merge",
+                            Abstract::Revision => "revision",
+                            Abstract::Redact { .. } => "redact",
+                            Abstract::Lifecycle { .. } => "lifecycle",
+                        };
                         vs.push(Violation::new(
-                            format!("C08/merged-below-threshold/{}-of-{thr}/{how}", backers.len()),
+                            format!("C08/merged-below-threshold/entered-by-{how}"),
                             format!(
                                 "patch reported Merged at (rev {:?}, commit {}) but only {} distinct delegate(s) [{}] have recorded a merge of exactly that pair with the commit on their default branch; threshold is {thr}",
                                 rev_ix,
@@ -431,7 +438,7 @@ impl System for Sys {
                                 backers.len(),
                                 backers.iter().map(|b| ACTORS[*b as usize]).collect::<Vec<_>>().join(",")
                             ),
-                            json!({"patch": self.view, "recorded": self.recorded}),
+                            json!({"patch": self.view, "recorded": self.recorded, "threshold": thr}),
                         ));
                     }
                 } else {
@@ -439,7 +446,7 @@ impl System for Sys {
                 }
                 if matches!(pre, patch::State::Merged { .. }) && matches!(action, Abstract::Lifecycle { .. }) && pre != post {
                     vs.push(Violation::new(
-                        format!("C08/lifecycle-moved-merged-patch/to-{}", state_kind(&post)),
+                        "C08/lifecycle-moved-merged-patch".to_string(),
                         format!("a lifecycle action by {} moved a merged patch to {}", ACTORS[by as usize], state_kind(&post)),
                         json!({"patch": self.view}),
                     ));
